@@ -1,6 +1,11 @@
 import Pcore.Proofs.StringHash
+import Pcore.Proofs.StringHashFacts
 import Pcore.Proofs.HashPool
+import Pcore.Proofs.HashFacts
+import Pcore.Proofs.HashDup
 import Pcore.Proofs.ArrayImpl
+import Pcore.Generated.StringHashFacts
+import Pcore.Generated.HashOps
 /-!
 # C09 — Ordered collections behave as their abstract models
 
@@ -11,32 +16,48 @@ hash ever holds two equal keys.  The mutable string-keyed hash used for type mem
 insertion-ordered map in which deletion keeps every other entry reachable and all mutation is rejected once
 frozen.
 
-Models: `Pcore.Model.StringHash` (hash/stringhash.go), `Pcore.Model.HashImpl` + `HashPool` (types/hashtype.go),
-`Pcore.Model.ArrayImpl` (types/arraytype.go); specification: `Pcore.Model.OMap` + `Pcore.Model.CollSpec`.
+Models: `Pcore.Model.StringHash` + `StringHashFacts` (hash/stringhash.go), `Pcore.Model.HashImpl` + `HashPool` +
+`HashFacts` (types/hashtype.go), `Pcore.Model.ArrayImpl` (types/arraytype.go); specification: `Pcore.Model.OMap`
++ `Pcore.Model.CollSpec`.
+
+Two ties to the code.  (1) Correspondence: whole histories are executed on the real code and on the model.
+(2) Regenerated facts: `Pcore.Generated.StringHashFacts.shFacts` and `Pcore.Generated.HashOps.hashFacts` are
+rewritten from the Go sources on every run; the models the theorems are about are *driven by these tables*
+(`stepSHT facts`, `stepHImplT facts`: position of the frozen test, Delete's re-numbering, order of the miss path,
+the loop of `mergeEntries`, the index reset of `PutAll`, …) and every theorem below is proved for ANY table
+satisfying the decidable side conditions `ShOK` / `HashOK`; `C09_sh_table_ok` / `C09_hash_table_ok` discharge
+them on the regenerated tables by `decide` — these are the obligations a code change breaks.
 
 Full statement / proved / missing
-* the specification is an insertion-ordered map with unique keys:
-  `C09_spec_get_put`, `C09_spec_keys_put`, `C09_spec_get_delete`, `C09_spec_keys_delete`, `C09_spec_nodup_put`,
-  `C09_spec_nodup_delete`, `C09_spec_nodup_merge` — proved.
-* StringHash, for ANY operation sequence (induction over the list):
+* the specification is an insertion-ordered map with unique keys: `C09_spec_*` — proved.
+* StringHash, for ANY table with `ShOK` and ANY operation sequence (induction over the list):
   `C09_sh_inv` (index = positions, keys unique — the `Delete` re-numbering is the crux), `C09_sh_index_iff`
   (`index k = some i ↔ entries[i].key = k`), `C09_sh_refine` (every result, the iteration order and the freeze
   flag after every step equal the specification's), `C09_sh_no_fault`, `C09_sh_delete_keeps_reachable`,
-  `C09_sh_frozen` + `C09_sh_frozen_rejected` — proved, full strength.
-* Hash, for ANY history over a pool of hashes (literal, put, merge, delete, deleteAll, get, includes, view, and the in-place
-  `MutableHashValue.Put`/`PutAll`):
+  `C09_sh_frozen` + `C09_sh_frozen_rejected`, `C09_sh_equals` + `C09_sh_equals_ext` (Equals = equal lookups,
+  order ignored); `C09_sh_impl_*` instantiate them on the code as it is now —
+  proved, full strength.
+* Hash, for ANY table with `HashOK` and ANY history over a pool of hashes (literal, put, merge, delete,
+  deleteAll, get, includes, view, and the in-place `MutableHashValue.Put`/`PutAll`):
   full statement `C09_hash_refine_full` / `C09_hash_nodup_full` (every literal included).  Proved:
-  `C09_hash_inv`, `C09_hash_refine_partial` and `C09_hash_no_fault` under `LitOK` = "no literal of the history repeats a key";
-  `C09_hash_index_iff`; `C09_mutable_putAll` (MutableHashValue).  The excluded case is real:
+  `C09_hash_inv`, `C09_hash_refine_partial` and `C09_hash_no_fault` under `LitOK` = "no literal of the history
+  repeats a key"; `C09_hash_index_iff`; `C09_mutable_putAll`.  The excluded case is real:
   `C09_hash_literal_dup_keys` / `C09_hash_refine_full_fails` (known finding C09-literal-dup-keys:
-  `WrapHash`/`BuildHash`/the parser keep both entries of `{a=>1,a=>2}`).
-* Array: `C09_arr_*` — add/addAll/delete/deleteAll/slice/unique as functions on immutable sequences.
+  `WrapHash`/`BuildHash`/the parser keep both entries of `{a=>1,a=>2}`).  What IS guaranteed for ANY entry list,
+  repeated keys included (the model of the finding): `C09_hash_dup_index` (the index answers the LAST position),
+  `C09_hash_dup_get` / `C09_hash_dup_includes` (lookups answer exactly what the specification's literal
+  answers: the later value), `C09_hash_dup_views` (Keys/Values/Len/At show every entry), `C09_hash_dup_delete`
+  (Delete removes only the last of the equal keys).
+* Array, for ANY history over a pool of arrays: `C09_arr_refine` (the loops of the implementation model — `px.Reject`,
+  the index loop of `AddAll`, the `exists` map of `Unique`, the stepping loop of `EachSlice`, `Slice` bounds — answer what
+  the sequence specification answers), `C09_arr_immutable` (no array of the pool ever changes); what the specification
+  is: `C09_arr_spec_unique`, `C09_arr_spec_chunks`, `C09_arr_spec_slice`, `C09_arr_sort`, `C09_arr_flatten` — proved.
 * missing: value equality itself (`px.ToKey` respects `Equals`: property C07 — here `key` is an abstract
   function into a type with decidable equality); that operations do not share backing storage (C08);
   `Array.Slice` beyond the length but within the capacity (Go allows it; outside the property).
 -/
 namespace Pcore.Coll
-open OMap
+open OMap Pcore.Generated
 
 /-! ## The specification is an insertion-ordered map with unique keys -/
 section spec
@@ -73,170 +94,157 @@ theorem C09_spec_nodup_ofList (l : List (α × β)) : (keys key (ofList key l)).
 end spec
 
 /-! ## hash.StringHash -/
+
+/-- obligation over the regenerated table (hash/stringhash.go) -/
+theorem C09_sh_table_ok : ShOK shFacts = true := by decide
+
 section sh
-variable {β : Type}
+variable {β : Type} (f : ShFacts) (hok : ShOK f = true)
+include hok
 
 /-- the invariant holds after ANY operation sequence -/
-theorem C09_sh_inv (h : SH β) (hi : SInv h) (ops : List (SOp β)) : SInv (runSH h ops).2 := by
-  induction ops generalizing h with
-  | nil => exact hi
-  | cons op ops ih => exact ih _ (hi.step op).1
-
-theorem C09_sh_inv_new (ops : List (SOp β)) : SInv (runSH (SH.new : SH β) ops).2 := C09_sh_inv _ SInv_new ops
-
-/-- the invariant in the form of DESIGN.md: `index k = some i ↔ entries[i].key = k` -/
-theorem C09_sh_index_iff {h : SH β} (hi : SInv h) (k : String) (i : Nat) :
-    GoMap.get h.index k = some i ↔ (h.entries[i]?).map (·.1) = some k := by
-  rw [hi.2, idx_iff hi.1]; rfl
+theorem C09_sh_inv (h : SH β) (hi : SInv h) (ops : List (SOp β)) : SInv (runSHT f h ops).2 := by
+  rw [runSHT_eq hok]; exact sh_inv h hi ops
 
 /-- every observation of every step equals the specification's, for ANY operation sequence -/
 theorem C09_sh_refine (h : SH β) (hi : SInv h) (ops : List (SOp β)) :
-    (runSH h ops).1 = (runSpec h.abs ops).1 ∧ (runSH h ops).2.abs = (runSpec h.abs ops).2 := by
-  induction ops generalizing h with
-  | nil => exact ⟨rfl, rfl⟩
-  | cons op ops ih =>
-    have hs := hi.step op
-    have := ih _ hs.1
-    simp only [runSH, runSpec, hs.2]
-    exact ⟨by rw [this.1]; rfl, this.2⟩
-
-theorem C09_sh_refine_new (ops : List (SOp β)) :
-    (runSH (SH.new : SH β) ops).1 = (runSpec ⟨[], false⟩ ops).1 := (C09_sh_refine _ SInv_new ops).1
-
-theorem stepSpec_ne_fault (s : SSpec β) (op : SOp β) : (stepSpec s op).2 ≠ .fault := by
-  cases op <;> simp only [stepSpec] <;> (try split) <;> (try split) <;> simp [optOut, boolOut] <;>
-    (try (split <;> simp))
+    (runSHT f h ops).1 = (runSpec h.abs ops).1 ∧ (runSHT f h ops).2.abs = (runSpec h.abs ops).2 := by
+  rw [runSHT_eq hok]; exact sh_refine h hi ops
 
 /-- no step of any history ends in a Go runtime fault (index out of range) -/
-theorem C09_sh_no_fault (h : SH β) (hi : SInv h) (op : SOp β) : (stepSH h op).2 ≠ .fault := by
-  have := (hi.step op).2
-  have h2 : (stepSH h op).2 = (stepSpec h.abs op).2 := by rw [this]
-  rw [h2]; exact stepSpec_ne_fault _ _
+theorem C09_sh_no_fault (h : SH β) (hi : SInv h) (op : SOp β) : (stepSHT f h op).2 ≠ .fault := by
+  rw [stepSHT_eq hok]; exact sh_no_fault h hi op
 
 /-- deletion keeps every other entry reachable, with its value -/
 theorem C09_sh_delete_keeps_reachable {h : SH β} (hi : SInv h) (k k' : String) (hne : k' ≠ k) :
-    (h.delete k).1.get k' = h.get k' := by
-  have hd := hi.delete k
-  by_cases hf : h.frozen = true
-  · simp [SH.delete, hf]
-  · have hf' : h.frozen = false := by simpa using hf
-    have he : (h.delete k).1.entries = delete id h.entries k := by
-      have := congrArg (fun x => x.1.m) hd.2
-      simpa [stepSpec, SH.abs, hf'] using this.symm
-    rw [hd.1.get, hi.get, he, get_delete]; simp [hne]
+    (stepSHT f h (.delete k)).1.get k' = h.get k' := by
+  rw [stepSHT_eq hok]; exact sh_delete_keeps_reachable hi k k' hne
 
 /-- once frozen, no operation on that hash changes it (`copy`/`merge` build a new hash) -/
 theorem C09_sh_frozen (h : SH β) (hf : h.frozen = true) (op : SOp β)
-    (hop : ∀ o, op ≠ .merge o) (hc : op ≠ .copy) : (stepSH h op).1 = h := by
-  cases op with
-  | put k v => simp [stepSH, SH.put, hf]
-  | delete k => simp [stepSH, SH.delete, hf]
-  | get k => rfl
-  | includes k => rfl
-  | cia k v =>
-    simp only [stepSH, SH.computeIfAbsent, hf]
-    split
-    · split <;> rfl
-    · simp
-  | copy => exact absurd rfl hc
-  | merge o => exact absurd rfl (hop o)
-  | putAll o =>
-    cases o with
-    | nil => rfl
-    | cons e es => simp [stepSH, SH.putAll, SH.put, hf]
-  | freeze => cases h; simp_all [stepSH, SH.freeze]
+    (hop : ∀ o, op ≠ .merge o) (hc : op ≠ .copy) : (stepSHT f h op).1 = h := by
+  rw [stepSHT_eq hok]; exact sh_frozen h hf op hop hc
 
 /-- once frozen, every mutating operation is rejected — unless it would not have changed anything even on an
     unfrozen hash (`ComputeIfAbsent` of a present key, `PutAll` of nothing) -/
 theorem C09_sh_frozen_rejected (h : SH β) (hi : SInv h) (hf : h.frozen = true) (op : SOp β) (hm : op.mutates = true) :
-    (stepSH h op).2 = .rejected ∨ (stepSpec ⟨h.entries, false⟩ op).1.m = h.entries := by
-  cases op with
-  | put k v => left; simp [stepSH, SH.put, hf]
-  | delete k => left; simp [stepSH, SH.delete, hf]
-  | cia k v =>
-    have := (hi.cia k v).2
-    cases hg : OMap.get id h.entries k with
-    | some o => right; simp [stepSpec, hg]
-    | none =>
-      left
-      have h2 : (stepSH h (.cia k v)).2 = (stepSpec h.abs (.cia k v)).2 := by rw [this]; rfl
-      rw [h2]; simp [stepSpec, SH.abs, hg, hf]
-  | putAll o =>
-    cases o with
-    | nil => right; simp [stepSpec, merge]
-    | cons e es => left; simp [stepSH, SH.putAll, SH.put, hf]
-  | get k => simp [SOp.mutates] at hm
-  | includes k => simp [SOp.mutates] at hm
-  | copy => simp [SOp.mutates] at hm
-  | merge o => simp [SOp.mutates] at hm
-  | freeze => simp [SOp.mutates] at hm
+    (stepSHT f h op).2 = .rejected ∨ (stepSpec ⟨h.entries, false⟩ op).1.m = h.entries := by
+  rw [stepSHT_eq hok]; exact sh_frozen_rejected h hi hf op hm
+
+end sh
+
+section sh2
+variable {β : Type}
+
+/-- the invariant in the form of DESIGN.md: `index k = some i ↔ entries[i].key = k` -/
+theorem C09_sh_index_iff {h : SH β} (hi : SInv h) (k : String) (i : Nat) :
+    GoMap.get h.index k = some i ↔ (h.entries[i]?).map (·.1) = some k := sh_index_iff hi k i
 
 /-- `Keys`, `Values`, `Len` are projections of the iteration order that `C09_sh_refine` pins down -/
 theorem C09_sh_views (h : SH β) :
     h.keys = h.pairs.map (·.1) ∧ h.values = h.pairs.map (·.2) ∧ h.len = h.pairs.length := ⟨rfl, rfl, rfl⟩
 
+/-- `Equals` never faults and compares the two hashes entry by entry through the other's index … -/
+theorem C09_sh_equals [DecidableEq β] {h o : SH β} (ho : SInv o) :
+    h.equals o = some (equalsSpec h.entries o.entries) := ho.equals
+
+/-- … which for maps is extensional equality of all lookups: the insertion order is ignored -/
+theorem C09_sh_equals_ext [DecidableEq β] {h o : SH β} (hh : SInv h) (ho : SInv o) :
+    h.equals o = some true ↔ ∀ k, h.get k = o.get k := by
+  rw [ho.equals, Option.some.injEq, equalsSpec_iff hh.1 ho.1]
+  constructor
+  · intro hk k; rw [hh.get, ho.get, hk k]
+  · intro hk k
+    have := hk k
+    rw [hh.get, ho.get] at this
+    cases h1 : OMap.get id h.entries k <;> cases h2 : OMap.get id o.entries k <;> simp [h1, h2, optOut] at this ⊢
+    exact this
+
+/-- instantiated on the code as it is now, from the empty hash -/
+theorem C09_sh_impl_inv (ops : List (SOp β)) : SInv (runSHT shFacts (SH.new : SH β) ops).2 :=
+  C09_sh_inv shFacts C09_sh_table_ok _ SInv_new ops
+
+theorem C09_sh_impl_refine (ops : List (SOp β)) :
+    (runSHT shFacts (SH.new : SH β) ops).1 = (runSpec ⟨[], false⟩ ops).1 :=
+  (C09_sh_refine shFacts C09_sh_table_ok _ SInv_new ops).1
+
 /-! non-vacuity: the fixed defect's history (put a, b, c; delete a; get c) and a frozen hash -/
 def shWitness : List (SOp Nat) := [.put "a" 1, .put "b" 2, .put "c" 3, .delete "a", .get "c", .get "a", .includes "b"]
-example : (runSH SH.new shWitness).1.map (·.1) = [.none, .none, .none, .val 1, .val 3, .none, .unit] := by decide
-example : (runSH SH.new shWitness).2.entries = [("b", 2), ("c", 3)] ∧ (runSH SH.new shWitness).2.index = [("b", 0), ("c", 1)] := by
-  decide
-def shFrozen : SH Nat := (runSH SH.new [.put "a" 1, .freeze]).2
+example : (runSHT shFacts SH.new shWitness).1.map (·.1) = [.none, .none, .none, .val 1, .val 3, .none, .unit] := by decide
+example : (runSHT shFacts SH.new shWitness).2.entries = [("b", 2), ("c", 3)] ∧
+    (runSHT shFacts SH.new shWitness).2.index = [("b", 0), ("c", 1)] := by decide
+def shFrozen : SH Nat := (runSHT shFacts SH.new [.put "a" 1, .freeze]).2
 example : SInv shFrozen ∧ shFrozen.frozen = true ∧ (SOp.put "b" 2 : SOp Nat).mutates = true :=
-  ⟨C09_sh_inv_new _, by decide, rfl⟩
-example : (stepSH shFrozen (.put "b" 2)).2 = .rejected ∧ (stepSH shFrozen (.delete "a")).2 = .rejected ∧
-    (stepSH shFrozen (.cia "a" 5)).2 = .val 1 := by decide
+  ⟨C09_sh_impl_inv _, by decide, rfl⟩
+example : (stepSHT shFacts shFrozen (.put "b" 2)).2 = .rejected ∧ (stepSHT shFacts shFrozen (.delete "a")).2 = .rejected ∧
+    (stepSHT shFacts shFrozen (.cia "a" 5)).2 = .val 1 := by decide
 
-end sh
+/-! the tables of the code before its fixes / of mutants are refuted by the side condition, and the fact-driven
+    model reproduces the wrong behaviour -/
+/-- the table before c7ffca4 "stringHash.Delete renumbered every later entry to the same index" -/
+def shFactsBefore : ShFacts := { shFacts with renum := .pMinus1Above }
+example : ShOK shFactsBefore = false := by decide
+example : ((runSHT shFactsBefore SH.new
+    [.put "a" 1, .put "b" 2, .put "c" 3, .put "d" 4, .delete "b", .get "d"]).1.map (·.1)).getLast? = some (.val 1) := by
+  decide      -- `d` answers `a`'s value
+/-- `Put` without its frozen test -/
+def shFactsNoGuard : ShFacts :=
+  { shFacts with methods := shFacts.methods.map fun m => if m.name = "Put" then { m with guard := .none } else m }
+example : ShOK shFactsNoGuard = false := by decide
+example : (stepSHT shFactsNoGuard shFrozen (.put "b" 2)).1.entries = [("a", 1), ("b", 2)] := by decide
+/-- a method that hands the entries to other code, an unknown loop, a Copy that shares, Merge not through Copy -/
+example : ShOK { shFacts with renum := .unknown "for k := range index { … }" } = false := by decide
+example : ShOK { shFacts with copyFresh := false } = false := by decide
+example : ShOK { shFacts with copyFrozen := some true } = false := by decide
+example : ShOK { shFacts with putMiss := .appendThenIndexLen } = false := by decide
+example : ShOK { shFacts with methods := ⟨"Keys", .none, [.other "other:escapes-entries"], [.entries], []⟩ :: shFacts.methods } = false := by
+  decide
+example : ShOK { shFacts with methods := ⟨"Clear", .none, [.entries, .index], [], []⟩ :: shFacts.methods } = false := by decide
+
+end sh2
 
 /-! ## types.Hash -/
+
+/-- obligation over the regenerated table (types/hashtype.go) -/
+theorem C09_hash_table_ok : HashOK hashFacts = true := by decide
+
 section hash
 variable {α β κ : Type} [DecidableEq κ] (key : α → κ)
+
+section withFacts
+variable (f : HashFacts) (hok : HashOK f = true)
+include hok
 
 /-- every hash of the pool keeps the invariant (no two equal keys, cached index = index of the entries) through ANY
     history whose literals do not repeat a key -/
 theorem C09_hash_inv (ops : List (HOp α β)) (hl : ∀ op ∈ ops, LitOK key op) (pool : List (Hash α β κ))
-    (hp : PoolInv key pool) : PoolInv key (runHImpl key pool ops).2 := by
-  induction ops generalizing pool with
-  | nil => exact hp
-  | cons op ops ih =>
-    exact ih (fun o ho => hl o (by simp [ho])) _ (stepH_refines key pool hp op (hl op (by simp))).1
+    (hp : PoolInv key pool) : PoolInv key (runHImplT f key pool ops).2 := by
+  rw [runHImplT_eq hok]; exact hash_inv key ops hl pool hp
 
 /-- every answer of every step (lookups, membership, iteration order) equals the specification's, and so does the
     content of every hash of the pool afterwards — for ANY history whose literals do not repeat a key -/
 theorem C09_hash_refine_partial (ops : List (HOp α β)) (hl : ∀ op ∈ ops, LitOK key op) (pool : List (Hash α β κ))
     (hp : PoolInv key pool) :
-    (runHImpl key pool ops).1 = (runHSpec key (absPool pool) ops).1 ∧
-      absPool (runHImpl key pool ops).2 = (runHSpec key (absPool pool) ops).2 := by
-  induction ops generalizing pool with
-  | nil => exact ⟨rfl, rfl⟩
-  | cons op ops ih =>
-    have hs := stepH_refines key pool hp op (hl op (by simp))
-    have := ih (fun o ho => hl o (by simp [ho])) _ hs.1
-    simp only [runHImpl, runHSpec, hs.2]
-    exact ⟨by rw [this.1], this.2⟩
-
-omit [DecidableEq κ] in
-theorem stepHSpec_ne_fault [DecidableEq κ] (pool : List (List (α × β))) (op : HOp α β) : (stepHSpec key pool op).2 ≠ .fault := by
-  cases op <;> simp only [stepHSpec] <;> (repeat' split) <;> simp
+    (runHImplT f key pool ops).1 = (runHSpec key (absPool pool) ops).1 ∧
+      absPool (runHImplT f key pool ops).2 = (runHSpec key (absPool pool) ops).2 := by
+  rw [runHImplT_eq hok]; exact hash_refine_partial key ops hl pool hp
 
 /-- no step of such a history ends in a Go runtime fault (slice bounds, index out of range) -/
 theorem C09_hash_no_fault (ops : List (HOp α β)) (hl : ∀ op ∈ ops, LitOK key op) (pool : List (Hash α β κ))
-    (hp : PoolInv key pool) : ∀ o ∈ (runHImpl key pool ops).1, o ≠ .fault := by
-  rw [(C09_hash_refine_partial key ops hl pool hp).1]
-  generalize absPool pool = sp
-  induction ops generalizing sp with
-  | nil => simp [runHSpec]
-  | cons op ops ih =>
-    intro o ho
-    simp only [runHSpec, List.mem_cons] at ho
-    rcases ho with rfl | ho
-    · exact stepHSpec_ne_fault key sp op
-    · exact ih (fun o ho => hl o (by simp [ho])) _ o ho
+    (hp : PoolInv key pool) : ∀ o ∈ (runHImplT f key pool ops).1, o ≠ .fault := by
+  rw [runHImplT_eq hok]; exact hash_no_fault key ops hl pool hp
+
+/-- `MutableHashValue.PutAll`: never faults, the new content is the merge, the invariant is kept (index dropped) -/
+theorem C09_mutable_putAll {h : Hash α β κ} (hi : HInv key h) {o : List (α × β)} (ho : (keys key o).Nodup) :
+    ∃ n, h.putAllT f key o = some n ∧ n.entries = merge key h.entries o ∧ HInv key n := by
+  rw [Hash.putAllT_eq hok]; exact hi.putAll ho
+
+end withFacts
 
 /-- `valueIndex()` answers exactly the positions: `index k = some i ↔ key entries[i] = k` -/
 theorem C09_hash_index_iff {h : Hash α β κ} (hi : HInv key h) (k : κ) (i : Nat) :
-    GoMap.get (h.valueIndex key).2 k = some i ↔ (h.entries[i]?).map (fun e => key e.1) = some k := by
-  rw [hi.valueIndex.2.2, idx_iff hi.1]
+    GoMap.get (h.valueIndex key).2 k = some i ↔ (h.entries[i]?).map (fun e => key e.1) = some k :=
+  hash_index_iff key hi k i
 
 omit [DecidableEq κ] in
 /-- `Keys`, `Values`, `Len`, `At` are projections of the entries that `C09_hash_refine_partial` pins down (`view`) -/
@@ -244,72 +252,111 @@ theorem C09_hash_views (h : Hash α β κ) (i : Nat) :
     h.keys = h.entries.map (·.1) ∧ h.values = h.entries.map (·.2) ∧ h.len = h.entries.length ∧
       h.atIdx i = h.entries[i]? := ⟨rfl, rfl, rfl, rfl⟩
 
-/-- `MutableHashValue.PutAll`: never faults, the new content is the merge, the invariant is kept -/
-theorem C09_mutable_putAll {h : Hash α β κ} (hi : HInv key h) {o : List (α × β)} (ho : (keys key o).Nodup) :
-    ∃ n, h.putAll key o = some n ∧ n.entries = merge key h.entries o ∧ HInv key n := hi.putAll ho
+/-! ### what is guaranteed for ANY entry list, repeated keys included (the model of C09-literal-dup-keys) -/
+
+/-- the lazily built index answers the position of the LAST entry with the key -/
+theorem C09_hash_dup_index (es : List (α × β)) (k : κ) :
+    GoMap.get ((Hash.wrap es : Hash α β κ).valueIndex key).2 k = lidx key es k := by
+  simp [Hash.valueIndex, Hash.wrap, get_buildIndex_any]
+
+/-- `Get`/`Get2`/`Get4` never fault and answer exactly what the specification's literal answers (the later value) -/
+theorem C09_hash_dup_get (es : List (α × β)) (k : κ) :
+    ((Hash.wrap es : Hash α β κ).get key k).2 = some (OMap.get key (ofList key es) k) := by
+  rw [wrap_get_any, ofList, get_merge_last]
+  cases getLast key es k <;> simp [OMap.get, getEntry]
+
+/-- `IncludesKey` answers exactly what the specification's literal answers -/
+theorem C09_hash_dup_includes (es : List (α × β)) (k : κ) :
+    ((Hash.wrap es : Hash α β κ).includesKey key k).2 = OMap.includes key (ofList key es) k := by
+  rw [wrap_includes_any, ofList, getEntry_isSome_merge]
+  simp [OMap.includes, getEntry]
+
+omit [DecidableEq κ] in
+/-- … but `Keys`/`Values`/`Len`/`At`/`Each` show every entry of the list, the repeated ones too -/
+theorem C09_hash_dup_views (es : List (α × β)) (i : Nat) :
+    (Hash.wrap es : Hash α β κ).keys = es.map (·.1) ∧ (Hash.wrap es : Hash α β κ).values = es.map (·.2) ∧
+      (Hash.wrap es : Hash α β κ).len = es.length ∧ (Hash.wrap es : Hash α β κ).atIdx i = es[i]? := ⟨rfl, rfl, rfl, rfl⟩
+
+/-- … and `Delete` removes only the LAST entry with the key (never faults) -/
+theorem C09_hash_dup_delete (es : List (α × β)) (k : α) :
+    ((Hash.wrap es : Hash α β κ).delete key k).2.map (·.entries) = some (match lidx key es (key k) with
+      | some i => es.eraseIdx i
+      | none => es) := wrap_delete_any key es k
+
+example : ((Hash.wrap [(1, 10), (2, 20), (1, 30)] : Hash Nat Nat Nat).get id 1).2 = some (some 30) ∧
+    (Hash.wrap [(1, 10), (2, 20), (1, 30)] : Hash Nat Nat Nat).keys = [1, 2, 1] ∧
+    ((Hash.wrap [(1, 10), (2, 20), (1, 30)] : Hash Nat Nat Nat).delete id 1).2.map (·.entries) = some [(1, 10), (2, 20)] ∧
+    ofList id [(1, 10), (2, 20), (1, 30)] = [(1, 30), (2, 20)] := by decide
 
 end hash
 
-
-/-! ## types.Array: the operations as functions on immutable sequences -/
+/-! ## types.Array: an immutable sequence -/
 section arr
-variable {α κ : Type} [DecidableEq κ] (key : α → κ)
+variable {α κ : Type} [DecidableEq κ] (key : α → κ) (le : α → α → Bool)
 
-/-- `Add` keeps every element where it was and puts the new one at the end -/
-theorem C09_arr_add (a : List α) (v : α) (i : Nat) :
-    Arr.atIdx (Arr.add a v) i = if i < a.length then Arr.atIdx a i else if i = a.length then some v else none := by
-  simp only [Arr.atIdx, Arr.add, List.getElem?_append]
-  by_cases h : i < a.length
-  · simp [h]
-  · by_cases h2 : i = a.length
-    · simp [h2]
-    · have : i - a.length ≠ 0 := by omega
-      simp [h, h2]
-      omega
+/-- for ANY history over a pool of arrays (literal, add, addAll, delete, deleteAll, slice, unique, sort, eachSlice,
+    at, len, find, view) the loops of the implementation model answer what the sequence specification answers and
+    leave the same pool behind -/
+theorem C09_arr_refine (pool : List (List α)) (ops : List (AOp α)) :
+    runAImpl key le pool ops = runASpec key le pool ops := runAImpl_eq key le pool ops
 
-theorem C09_arr_addAll (a b : List α) (i : Nat) :
-    Arr.atIdx (Arr.addAll a b) i = if i < a.length then Arr.atIdx a i else Arr.atIdx b (i - a.length) := by
-  simp only [Arr.atIdx, Arr.addAll, List.getElem?_append]
+/-- immutability: whatever the history, every array that was in the pool is still there, unchanged -/
+theorem C09_arr_immutable (pool : List (List α)) (ops : List (AOp α)) (i : Nat) (hi : i < pool.length) :
+    (runAImpl key le pool ops).2[i]? = pool[i]? := by
+  rw [C09_arr_refine]
+  obtain ⟨t, ht⟩ := runASpec_prefix key le pool ops
+  rw [← ht, List.getElem?_append_left hi]
 
-/-- `Delete` removes exactly the elements equal to the argument and keeps the order of the others -/
-theorem C09_arr_delete (a : List α) (v e : α) :
-    (e ∈ Arr.delete key a v ↔ e ∈ a ∧ key e ≠ key v) ∧ (Arr.delete key a v).Sublist a := by
-  simp [Arr.delete, List.mem_filter]
+/-- what the specification's `unique` is: the first of every group of equal elements, in order -/
+theorem C09_arr_spec_unique (a : List α) :
+    ((ASpec.firsts key a).map key).Nodup ∧ (ASpec.firsts key a).Sublist a ∧
+      ∀ e ∈ a, key e ∈ (ASpec.firsts key a).map key := ASpec.firsts_spec key a
 
-theorem C09_arr_deleteAll (a b : List α) (e : α) :
-    (e ∈ Arr.deleteAll key a b ↔ e ∈ a ∧ key e ∉ b.map key) ∧ (Arr.deleteAll key a b).Sublist a := by
-  simp [Arr.deleteAll, List.mem_filter]
+omit [DecidableEq κ] in
+/-- what the specification's `eachSlice n` is: non-empty pieces of at most `n` elements whose concatenation is the array -/
+theorem C09_arr_spec_chunks (n : Nat) (hn : 0 < n) (a : List α) :
+    (ASpec.chunks n a).flatten = a ∧ ∀ c ∈ ASpec.chunks n a, 0 < c.length ∧ c.length ≤ n := ASpec.chunks_spec n hn a
 
-/-- `Slice(i, j)` within the bounds of the value is the sub-sequence of positions i … j-1 -/
-theorem C09_arr_slice (a : List α) (i j : Nat) (h : i ≤ j ∧ j ≤ a.length) :
-    ∃ s, Arr.slice a i j = some s ∧ s.length = j - i ∧ ∀ n, n < j - i → Arr.atIdx s n = Arr.atIdx a (i + n) := by
-  refine ⟨(a.drop i).take (j - i), by simp [Arr.slice, h], ?_, ?_⟩
-  · simp; omega
-  · intro n hn
-    simp [Arr.atIdx, List.getElem?_take, hn]
+omit [DecidableEq κ] in
+/-- what the specification's `slice i j` is: the elements at positions i … j-1 -/
+theorem C09_arr_spec_slice (a : List α) (i j : Nat) (h : i ≤ j ∧ j ≤ a.length) :
+    (ASpec.slice a i j).length = j - i ∧ ∀ n, n < j - i → (ASpec.slice a i j)[n]? = a[i + n]? := ASpec.slice_spec a i j h
 
-/-- `Unique` keeps the first of every group of equal elements, in order -/
-theorem C09_arr_unique (a : List α) :
-    ((Arr.unique key a).map key).Nodup ∧ (Arr.unique key a).Sublist a ∧
-      ∀ e ∈ a, key e ∈ (Arr.unique key a).map key := by
-  obtain ⟨h1, _, h3, h4⟩ := Arr.uniqueFrom_spec key a []
-  exact ⟨h1, h3, fun e he => by simpa [Arr.unique] using h4 e he⟩
+omit [DecidableEq κ] in
+/-- `Sort` with a total, transitive comparator: a sorted permutation -/
+theorem C09_arr_sort (a : List α) (htot : ∀ x y, le x y || le y x) (htrans : ∀ x y z, le x y → le y z → le x z) :
+    (Arr.sort le a).Perm a ∧ (Arr.sort le a).Pairwise (fun x y => le x y) :=
+  ⟨List.mergeSort_perm a le, List.pairwise_mergeSort htrans htot a⟩
 
-example : Arr.unique id [1, 2, 1, 3, 2] = [1, 2, 3] ∧ Arr.delete id [1, 2, 1, 3] 1 = [2, 3] ∧
-    Arr.slice [1, 2, 3, 4] 1 3 = some [2, 3] ∧ Arr.slice [1, 2] 1 3 = none := by decide
+/-- `Flatten`: no array is left among the elements, and an array without nested arrays is unchanged -/
+theorem C09_arr_flatten (vs : List AVal) :
+    (∀ x ∈ AVal.flats vs, x.isArr = false) ∧ AVal.flats (AVal.flats vs) = AVal.flats vs :=
+  ⟨AVal.flats_noArr vs, AVal.flats_of_noArr _ (AVal.flats_noArr vs)⟩
+
+def arrWitness : List (AOp Nat) :=
+  [.lit [3, 1, 3, 2], .add 0 1, .unique 1, .view 2, .delete 1 3, .view 3, .eachSlice 1 2, .slice 0 1 3,
+   .view 4, .slice 0 3 9, .eachSlice 0 0, .at 0 (-1), .at 0 3, .addAll 2 4, .view 5, .deleteAll 5 4, .view 6, .view 0]
+example : (runAImpl id (fun x y => decide (x ≤ y)) [] arrWitness).1 =
+    [.made, .made, .made, .elems [3, 1, 2], .made, .elems [1, 2, 1],
+     .chunks [[3, 1], [3, 2], [1]], .made, .elems [1, 3], .fault, .illegal, .got none, .got (some 2), .made,
+     .elems [3, 1, 2, 1, 3], .made, .elems [2], .elems [3, 1, 3, 2]] := by decide
+example : Arr.sort (fun x y => decide (x ≤ y)) [3, 1, 3, 2] = [1, 2, 3, 3] := by
+  simp [Arr.sort, List.mergeSort, List.MergeSort.Internal.splitInTwo]
+example : AVal.flats [.leaf "1", .arr [.leaf "2", .arr [.leaf "3"], .arr []], .leaf "4"] =
+    [.leaf "1", .leaf "2", .leaf "3", .leaf "4"] := by simp [AVal.flats, AVal.flat]
 
 end arr
 
 /-- FULL statements (every literal included) -/
 def C09_hash_refine_full : Prop :=
-  ∀ ops : List (HOp Nat Nat), (runHImpl id ([] : List (Hash Nat Nat Nat)) ops).1 = (runHSpec id [] ops).1
+  ∀ ops : List (HOp Nat Nat), (runHImplT hashFacts id ([] : List (Hash Nat Nat Nat)) ops).1 = (runHSpec id [] ops).1
 def C09_hash_nodup_full : Prop :=
-  ∀ ops : List (HOp Nat Nat), ∀ h ∈ (runHImpl id ([] : List (Hash Nat Nat Nat)) ops).2, (keys id h.entries).Nodup
+  ∀ ops : List (HOp Nat Nat), ∀ h ∈ (runHImplT hashFacts id ([] : List (Hash Nat Nat Nat)) ops).2, (keys id h.entries).Nodup
 
 /-- known finding C09-literal-dup-keys: the literal `{1=>1, 1=>2}` holds two equal keys … -/
 theorem C09_hash_literal_dup_keys : ¬ C09_hash_nodup_full := by
   intro h
-  have := h [.lit [(1, 1), (1, 2)]] (Hash.wrap [(1, 1), (1, 2)]) (by simp [runHImpl, stepHImpl])
+  have := h [.lit [(1, 1), (1, 2)]] (Hash.wrap [(1, 1), (1, 2)]) (by simp [runHImplT, stepHImplT, stepHImpl])
   simp [Hash.wrap, keys] at this
 
 /-- … and is observably not the ordered map `{1=>2}`: its iteration order shows both entries -/
@@ -324,9 +371,28 @@ def hashWitness : List (HOp Nat Nat) :=
    .view 3, .merge 1 3, .view 4, .get 4 2, .includes 1 1]
 example : (∀ op ∈ hashWitness, LitOK id op) ∧ PoolInv id ([] : List (Hash Nat Nat Nat)) :=
   ⟨by decide, by simp [PoolInv]⟩
-example : (runHImpl id ([] : List (Hash Nat Nat Nat)) hashWitness).1 =
+example : (runHImplT hashFacts id ([] : List (Hash Nat Nat Nat)) hashWitness).1 =
     [.made, .made, .entries [(2, 20), (3, 30)], .entries [(1, 10), (2, 20), (3, 30)], .made, .entries [(3, 30)], .made,
      .entries [(1, 10), (2, 21), (3, 30)], .made, .entries [(2, 21), (3, 30), (1, 10)], .got (some 21), .has false] := by
   decide
+
+/-! the tables of mutants are refuted by the side condition, and the fact-driven model reproduces the behaviour -/
+/-- Appendix E mutant "`mergeEntries`: always append" -/
+def hashFactsAppend : HashFacts := { hashFacts with mergeLoop := .alwaysAppend }
+example : HashOK hashFactsAppend = false := by decide
+example : (runHImplT hashFactsAppend id ([] : List (Hash Nat Nat Nat)) [.lit [(1, 2)], .put 0 (1, 3), .view 1]).1 =
+    [.made, .made, .entries [(1, 2), (1, 3)]] := by decide
+/-- `PutAll` without `hv.index = nil`: the stale index makes the new key unreachable -/
+def hashFactsStale : HashFacts := { hashFacts with putAllResetsIndex := false }
+example : HashOK hashFactsStale = false := by decide
+example : (runHImplT hashFactsStale id ([] : List (Hash Nat Nat Nat)) [.lit [], .mput 0 (1, 1), .mput 0 (2, 2), .get 0 2]).1 =
+    [.made, .made, .made, .got none] := by decide
+example : HashOK { hashFacts with literals := ("hashtype.go:Hash.Select", ["entries", "index"]) :: hashFacts.literals } = false := by
+  decide
+example : HashOK { hashFacts with fieldWrites := ("Hash.Delete", "entries", .unknown "hv.entries = …") :: hashFacts.fieldWrites } = false := by
+  decide
+example : HashOK { hashFacts with entryElementWrites := ["Hash.Sort: hv.entries[i] = hv.entries[j]"] } = false := by decide
+example : HashOK { hashFacts with mergeCopiesReceiver := false } = false := by decide
+example : HashOK { hashFacts with valueIndex := .unknown "…" } = false := by decide
 
 end Pcore.Coll
